@@ -119,7 +119,7 @@ CLAIMS = {
             'DESIGN.md §5 C06', 'E8'),
     'C07': ('other', 'static analysis: interval/sign analysis of last∘update on the value graph + reuse of the Drawdown/NET/Fisher/clip rules',
             'Only bounds constructed by the code: Tanh, LaguerreRSI, Rsi, WelfordOnline/Rolling, GTE/LTE, Fisher (ln 199), Drawdown (monotone from 0), NET, HLNormalizer (from the tracked-extrema invariant min <= last <= max), Min <= Sma/Alma <= Max (convex combination of the last N inputs, real arithmetic, enumerated N), newest value within Min/Max.',
-            'Declined in so many words: MyRSI, CTI, BinaryEntropy, Vsct, CoG bound, Drawdown<1, and every "few ulps" clause; PFE is a known finding.',
+            '|Vsct| <= (N-1)/sqrt(N) follows from the verified structure (Samuelson). Declined in so many words: MyRSI, CTI, BinaryEntropy, the f64 half of the CoG bound, Drawdown<1, and every "few ulps" clause; PFE is a known finding.',
             'DESIGN.md §5 C07', 'E3-float'),
 }
 
